@@ -52,6 +52,21 @@ def unit_props(unit):
     return ps
 
 
+def contract_of(item, ob):
+    for c in item.get('ensures') or []:
+        if isinstance(c, (tuple, list)) and c[0] == ob:
+            return 'ensures ' + ' '.join(c[1].split())[:400]
+    for lp in (item.get('loops') or {}).values():
+        for kind in ('invariant', 'ensures', 'invariant_except_break'):
+            for c in lp.get(kind) or []:
+                if isinstance(c, (tuple, list)) and c[0] == ob:
+                    return kind + ' ' + ' '.join(c[1].split())[:400]
+    return {'panic_free': 'no index/overflow/unwrap/panic/unreachable/failed callee precondition on any path',
+            'terminates': 'every loop and recursion has a decreasing measure',
+            'loop_invariants': 'unlabelled loop invariants hold on entry and are preserved',
+            'proof_steps': 'injected lemma calls and ghost assertions hold'}.get(ob, '')
+
+
 def fn_obligations(key, item, rendered_text):
     """Stable obligation labels of one contracted function."""
     obs = []
@@ -64,7 +79,8 @@ def fn_obligations(key, item, rendered_text):
                 if isinstance(c, (tuple, list)) and c[0] not in obs:
                     obs.append(c[0])
     obs.append('panic_free')
-    if item.get('loops') or item.get('decreases'):
+    no_term = any('exec_allows_no_decreases_clause' in a for a in item.get('attrs', []))
+    if (item.get('loops') or item.get('decreases')) and not no_term:
         obs.append('terminates')
     if item.get('loops'):
         obs.append('loop_invariants')
@@ -137,6 +153,17 @@ def run_unit(name, path, devs, tier, seed, workdir, only_props=None, verus_extra
     res['verus_cmd'] = vr['cmd'].replace(workdir, '<scratch>')
     ev = verus.evaluate(vr, meta)
     res['smt_s'] = (ev['smt_ms'] or 0) / 1000.0
+    # resource-limit / solver trouble attributed to ONE function makes that function undecided, not the unit
+    soft_items = {}
+    hard_left = []
+    for h in ev['hard']:
+        if h['item'] and not h['item'].endswith('__canary') and re.search(r'rlimit|Resource limit|timed out', h['message'], re.I):
+            soft_items.setdefault(h['item'], []).append(h)
+        elif h['item'] and h['item'].endswith('__canary'):
+            pass
+        else:
+            hard_left.append(h)
+    ev['hard'] = hard_left
     if not ev['have_json'] or ev['vir_error'] or ev['hard'] or ev['crashed']:
         res['status'] = 'undecided'
         msgs = [h['rendered'] or h['message'] for h in ev['hard']][:5]
@@ -150,7 +177,7 @@ def run_unit(name, path, devs, tier, seed, workdir, only_props=None, verus_extra
     for f in ev['failures']:
         fails_by_item.setdefault(f['item'], []).append(f)
     for key, item in unit['items'].items():
-        if item['kind'] != 'fn':
+        if item['kind'] != 'fn' or key in meta.get('absent', ()):
             continue
         props = item.get('props', [])
         obs = fn_obligations(key, item, meta['rendered'][key])
@@ -187,7 +214,13 @@ def run_unit(name, path, devs, tier, seed, workdir, only_props=None, verus_extra
         for ob in obs:
             oid = '%s/%s/%s' % (name, key, ob)
             rec = {'id': oid, 'backend': 'verus+z3', 'props': props, 'time_s': round(tsec, 4),
-                   'status': 'discharged', 'bound': 'unbounded'}
+                   'status': 'discharged', 'bound': 'unbounded', 'contract': contract_of(item, ob)}
+            if key in soft_items and ob not in failed:
+                rec['status'] = 'undecided'
+                rec['messages'] = [x['message'] for x in soft_items[key]]
+                if res['status'] == 'ok':
+                    res['status'] = 'undecided'
+                res['notes'].append('%s: resource limit exceeded — undecided (not a violation)' % oid)
             if ob in failed:
                 rec['status'] = 'failed'
                 rec['messages'] = [x['message'] for x in failed[ob]]
